@@ -322,6 +322,9 @@ class PluginResult:
 
     @classmethod
     def _from_continuation(cls, args):
+        if cls.__init__ is PluginResult.__init__:
+            # plain results are created from, and saved as, a single mapping
+            return cls(args)
         return cls(**args)
 
     def __init_subclass__(cls, **kwargs):
